@@ -29,6 +29,22 @@ PROPS = {
 }
 
 
+PROPS["C01"] = {
+    "module": "PropC01",
+    "theorems": ["C01_sound", "C01_decodes", "C01_ascii_partial", "C01_ascii_refuted"],
+    "runs": [detect_run("C01", 260, 4000, bigq=2, bigt=12)],
+    "search": detect_search("C01"),
+    "rule": "detection cases = fixed witnesses + corpus files + generated (corpus slices, texts re-encoded into any supported "
+            "encoding, marks, declarations, ASCII with high bytes at random offsets incl. between the sampled chunks, tiny, binary, "
+            "corrupted UTF-8, mixed scripts, inputs on both sides of 1,000,000 bytes) x random settings; each compared field by "
+            "field with the extracted Coq model run on the same case with its oracles served by the real primitives, and checked "
+            "against the codec crate's own strict decode; non-trivial = distinct cases with at least one match",
+    "assumptions": ["LazyContract (single-byte decoders are byte-wise) for inputs above TOO_BIG_SEQUENCE only",
+                    "known finding D1: the 'ascii' conjunct is refuted (C01_ascii_refuted); violations inside the known class are listed, not raised"],
+    "trusted": ["Flocq axioms only in C01_ascii_refuted (witness evaluated on binary32): sig_forall_dec, sig_not_dec, functional_extensionality_dep, classic"],
+}
+
+
 def _tok(line):
     return line.split(" ")
 
